@@ -101,6 +101,8 @@ def _fixture_hits(prog):
     import os
     p = os.path.join(os.path.dirname(os.path.dirname(os.path.dirname(os.path.abspath(__file__)))), "fixtures", "c08_socket_mode.py")
     tree = ast.parse(open(p, encoding="utf-8").read())
+    from ..program import _set_parents
+    _set_parents(tree)
     hits = []
     for cls in [n for n in tree.body if isinstance(n, ast.ClassDef)]:
         for fn in [n for n in cls.body if isinstance(n, ast.FunctionDef)]:
